@@ -3,6 +3,7 @@ CONSTANTS MaxLen = 3
  Files = {"f1"}
  AllowAbsent = FALSE
  MaxRunsGrow = 0
+ Part = 1
  Emit = TRUE
 SPECIFICATION Spec
 INVARIANTS PointwiseBest OrderIndependent Idempotent EmitCase
